@@ -492,6 +492,28 @@ func ruleWidth(rule string, w int, only []string, minSites int, why string) func
 			c.analysed[fn] = true
 		}
 		c.floor(rule, n, minSites)
+		if c.tier == "thorough" && only == nil {
+			// domain sweep: how many sites would overflow at each coordinate width, and the widest result per width
+			for _, ww := range []int{16, 26, 29, 31, 52, 61, 62} {
+				aw := runWidth(c, ww)
+				over, widest := 0, 0
+				for _, f := range funcs {
+					fn := c.fname(f)
+					if strings.HasPrefix(fn, "(int128)") || fn == "mulInt64" || fn == "multiplyUInt64" {
+						continue
+					}
+					for _, s := range aw.sites(f) {
+						if s.bits > 63 {
+							over++
+						}
+						if s.bits > widest {
+							widest = s.bits
+						}
+					}
+				}
+				c.note("%s sweep: coordinates of %d bits -> %d overflowing int64 sites, widest int64 result %d bits", rule, ww, over, widest)
+			}
+		}
 		c.note("%s: coordinates have %d bits; float->int conversions are assumed to yield coordinate-difference magnitude (%d bits); `int` values (indices, counts, winding numbers) are assumed below 2^31", rule, w, w+1)
 	}
 }
